@@ -466,7 +466,7 @@ Section WithSort.
 
   Lemma add_key_SInv s k : SInv s -> SInv (add_key sort s k).
   Proof.
-    intros H. unfold add_key, add_key_with. destruct (has_key (kid (fst k)) (keys s)); [exact H|].
+    intros H. unfold add_key, add_key_with.
     apply add_ones_SInv. apply add_one_SInv. exact H.
   Qed.
 
@@ -536,9 +536,8 @@ Section WithSort.
   Lemma keys_step s o : keys (step sort s o) = spec_step (keys s) o.
   Proof.
     destruct o as [[i subs]|[i subs]]; cbn [step spec_step].
-    - unfold add_key, add_key_with. cbn [fst snd]. change (has_key (kid i) (keys s)) with (is_loaded (kid i) (keys s)).
-      destruct (is_loaded (kid i) (keys s)) eqn:E; [reflexivity|].
-      fold (add_one sort). rewrite keys_add_ones, keys_add_one. unfold add_new. rewrite E. reflexivity.
+    - unfold add_key, add_key_with. cbn [fst snd].
+      fold (add_one sort). rewrite keys_add_ones, keys_add_one. reflexivity.
     - unfold unload, unload_with. cbn [fst snd]. change (has_key (kid i) (keys s)) with (is_loaded (kid i) (keys s)).
       fold (unload_one sort).
       destruct (is_loaded (kid i) (keys s)) eqn:E; [|reflexivity].
